@@ -159,3 +159,130 @@ Proof.
     assert (ptr < length w) by (apply nth_error_Some; congruence).
     destruct (b_is c 10); apply IH; try assumption; lia.
 Qed.
+
+(* ------------------------------------------------------------------ the window scan and the reference *)
+(* w = the window, x = whatever follows it in the stream (not visible to the scan) *)
+Definition wpost (w x : bytes) (ptr : nat) (st : skst) (d : Z) (res : skres) : Prop :=
+  match res with
+  | SkDone adv => ptr < adv <= length w /\ forall k, sref (skipn ptr (w ++ x)) st d k = Some (k + (adv - ptr))
+  | SkRefill p st' d' =>
+      ptr <= p <= length w /\
+      (forall k, sref (skipn ptr (w ++ x)) st d k = sref (skipn p (w ++ x)) st' d' (k + (p - ptr))) /\
+      (p = length w \/ (st' = SkQuote /\ (exists c, nth_error w p = Some c /\ b_is c 92 = true) /\ length w - p <= 2)) /\
+      (sesc (skipn p (w ++ x)) st' d' = true -> sesc (skipn ptr (w ++ x)) st d = true)
+  | SkCrash _ => False
+  end.
+
+Lemma wpost_step w x ptr st d ptr' st' d' res :
+  ptr < ptr' <= length w ->
+  (forall k, sref (skipn ptr (w ++ x)) st d k = sref (skipn ptr' (w ++ x)) st' d' (k + (ptr' - ptr))) ->
+  (sesc (skipn ptr' (w ++ x)) st' d' = true -> sesc (skipn ptr (w ++ x)) st d = true) ->
+  wpost w x ptr' st' d' res -> wpost w x ptr st d res.
+Proof.
+  intros Hp Hs He. destruct res as [adv|p st2 d2|s]; cbn [wpost]; [| |auto].
+  - intros [Ha Hk]. split; [lia|]. intros k. rewrite Hs, Hk. f_equal. lia.
+  - intros (Ha & Hk & Hc & Hes). split; [lia|]. split; [|split; [exact Hc|auto]].
+    intros k. rewrite Hs, Hk. f_equal. lia.
+Qed.
+
+Lemma skipn_app_cons (w x : bytes) ptr c :
+  nth_error w ptr = Some c -> skipn ptr (w ++ x) = c :: skipn (S ptr) (w ++ x).
+Proof.
+  intros H. apply skipn_nth_cons. rewrite nth_error_app1; [exact H|]. apply nth_error_Some. congruence.
+Qed.
+
+Theorem scan_window : forall fuel w x ptr st d,
+  ptr <= length w -> length w - ptr < fuel ->
+  wpost w x ptr st d (sk_scan_bytes fuel w ptr st d).
+Proof.
+  induction fuel as [|f IH]; intros w x ptr st d Hp Hf; [lia|].
+  cbn [sk_scan_bytes].
+  destruct (nth_error w ptr) as [c|] eqn:En.
+  2:{ (* end of the window *)
+    apply nth_error_None in En. assert (ptr = length w) by lia. subst ptr.
+    destruct st; cbn [wpost]; (split; [lia|]); (split; [intros k; f_equal; lia|]); (split; [left; reflexivity|auto]). }
+  assert (Hlt : ptr < length w) by (apply nth_error_Some; congruence).
+  pose proof (skipn_app_cons w x ptr c En) as Hsk.
+  assert (Hone : forall st' d', 
+     (forall k, sref (skipn ptr (w ++ x)) st d k = sref (skipn (S ptr) (w ++ x)) st' d' (k + (S ptr - ptr))) ->
+     (sesc (skipn (S ptr) (w ++ x)) st' d' = true -> sesc (skipn ptr (w ++ x)) st d = true) ->
+     wpost w x ptr st d (sk_scan_bytes f w (S ptr) st' d')).
+  { intros st' d' H1 H2. apply (wpost_step w x ptr st d (S ptr) st' d'); [lia|exact H1|exact H2|].
+    apply IH; lia. }
+  replace (S ptr - ptr) with 1 in Hone by lia.
+  destruct st.
+  - (* SkNone *)
+    destruct (b_is c 123) eqn:E1.
+    { apply Hone; rewrite Hsk; cbn [sref sesc]; rewrite E1; [intros k; f_equal; lia|auto]. }
+    destruct (b_is c 125) eqn:E2.
+    { destruct (d - 1 =? 0)%Z eqn:Ez.
+      - cbn [wpost]. split; [lia|]. intros k. rewrite Hsk. cbn [sref]. rewrite E1, E2, Ez. f_equal. lia.
+      - apply Hone; rewrite Hsk; cbn [sref sesc]; rewrite E1, E2, Ez; [intros k; f_equal; lia|auto]. }
+    destruct (b_is c 34) eqn:E3.
+    { apply Hone; rewrite Hsk; cbn [sref sesc]; rewrite E1, E2, E3; [intros k; f_equal; lia|auto]. }
+    destruct (b_is c 35) eqn:E4.
+    { apply Hone; rewrite Hsk; cbn [sref sesc]; rewrite E1, E2, E3, E4; [intros k; f_equal; lia|auto]. }
+    apply Hone; rewrite Hsk; cbn [sref sesc]; rewrite E1, E2, E3, E4; [intros k; f_equal; lia|auto].
+  - (* SkQuote *)
+    destruct (b_is c 92) eqn:E1.
+    { destruct (Nat.leb (length w - ptr) 2) eqn:E2.
+      - apply Nat.leb_le in E2. cbn [wpost]. split; [lia|]. split; [intros k; f_equal; lia|].
+        split; [|auto]. right. split; [reflexivity|]. split; [exists c; auto|exact E2].
+      - apply Nat.leb_gt in E2.
+        destruct (nth_error w (S ptr)) as [c2|] eqn:En2; [|apply nth_error_None in En2; lia].
+        pose proof (skipn_app_cons w x (S ptr) c2 En2) as Hsk2.
+        apply (wpost_step w x ptr SkQuote d (ptr + 2) SkQuote d); [lia| | |apply IH; lia].
+        + intros k. rewrite Hsk, Hsk2. cbn [sref]. rewrite E1. replace (S (S ptr)) with (ptr + 2) by lia.
+          f_equal. lia.
+        + intros _. rewrite Hsk. cbn [sesc]. rewrite E1. reflexivity. }
+    destruct (b_is c 34) eqn:E2.
+    { apply Hone; rewrite Hsk; cbn [sref sesc]; rewrite E1, E2; [intros k; f_equal; lia|auto]. }
+    apply Hone; rewrite Hsk; cbn [sref sesc]; rewrite E1, E2; [intros k; f_equal; lia|auto].
+  - (* SkComment *)
+    destruct (b_is c 10) eqn:E1.
+    { apply Hone; rewrite Hsk; cbn [sref sesc]; rewrite E1; [intros k; f_equal; lia|auto]. }
+    apply Hone; rewrite Hsk; cbn [sref sesc]; rewrite E1; [intros k; f_equal; lia|auto].
+Qed.
+
+(* a scan that stands on a backslash with at most one byte behind it, or at the end, fails *)
+Lemma sref_nil st d k : sref [] st d k = None.
+Proof. reflexivity. Qed.
+
+Lemma sref_esc_short (s : bytes) c d k :
+  nth_error s 0 = Some c -> b_is c 92 = true -> length s <= 2 -> sref s SkQuote d k = None.
+Proof.
+  destruct s as [|c0 [|c1 [|c2 s]]]; cbn [nth_error length sref]; try discriminate; try lia;
+    intros H; inversion H; subst; intros ->; reflexivity.
+Qed.
+
+(* Theorem 2: the window holds the whole remaining input *)
+Theorem scan_ref_whole : forall fuel w ptr st d,
+  ptr <= length w -> length w - ptr < fuel ->
+  match sk_scan_bytes fuel w ptr st d with
+  | SkDone adv => ptr < adv <= length w /\ sref (skipn ptr w) st d 0 = Some (adv - ptr)
+  | SkRefill _ _ _ => sref (skipn ptr w) st d 0 = None
+  | SkCrash _ => False
+  end.
+Proof.
+  intros fuel w ptr st d Hp Hf. pose proof (scan_window fuel w [] ptr st d Hp Hf) as H.
+  destruct (sk_scan_bytes fuel w ptr st d) as [adv|p st' d'|s]; cbn [wpost] in H; [| |exact H];
+    rewrite !app_nil_r in H.
+  - destruct H as [Ha Hk]. split; [exact Ha|]. rewrite Hk. reflexivity.
+  - destruct H as (Ha & Hk & Hc & _). rewrite Hk. destruct Hc as [->|(-> & (c & Hn & Hb) & Hl)].
+    + rewrite skipn_all. reflexivity.
+    + apply (sref_esc_short _ c); [|exact Hb|rewrite skipn_length; exact Hl].
+      rewrite (skipn_nth_cons _ _ _ Hn). reflexivity.
+Qed.
+
+Corollary scan_whole_skip_ref : forall fuel w, length w < fuel ->
+  match sk_scan_bytes fuel w 0 SkNone 1%Z with
+  | SkDone adv => skip_ref w = Some adv /\ 0 < adv <= length w
+  | SkRefill _ _ _ => skip_ref w = None
+  | SkCrash _ => False
+  end.
+Proof.
+  intros fuel w Hf. pose proof (scan_ref_whole fuel w 0 SkNone 1%Z ltac:(lia) ltac:(lia)) as H.
+  unfold skip_ref. cbn [skipn] in H.
+  destruct (sk_scan_bytes fuel w 0 SkNone 1%Z); [|exact H|exact H].
+  destruct H as [Ha Hs]. rewrite Nat.sub_0_r in Hs. auto.
+Qed.
